@@ -9,6 +9,8 @@ import Gv.Model.Eval
 import Gv.Model.Gen
 import Gv.Proofs.EvalLemmas
 import Gv.Proofs.Frame
+import Gv.Proofs.UpdateSound
+import Gv.Proofs.PlanCheckUSound
 
 namespace Gv.Props.C10
 open Gv Gv.Str Gv.Eval Gv.Gen
@@ -89,5 +91,169 @@ open Gv.Sound in
 /-- non-vacuity: with `Keep` ignored and `V` mapped, `Keep` keeps "kept" while `V` is overwritten -/
 example : ("Keep".toList ∉ planTargets (.cons (.skip "Keep".toList) (.cons (.mapped "V".toList ["V".toList] [false] false false .ident .none) .nil))) := by
   decide
+
+/-! ### The composite theorem: a checked update method assigns field by field as the statement says
+
+`PlanCheck.checkProgU` is the decidable fragment test (structural plans + ignored fields + zero-value guards + update
+methods); `Spec.ImgOnto` / `Spec.FieldOutcome` is the statement as a relation.  For every program that passes, every
+update method `m` whose body is the struct assignment `plans`, every well-typed source struct (passed by value or behind
+a non-nil pointer), every well-typed previous target struct `old`, every fuel: the result is a struct, and for the `i`-th
+target field `tf` with plan `f`:
+  (i)   `f = .skip _` (ignored / unmapped):                         the field holds what `old` held;
+  (ii)  `f = .mapped …` without guard, or with a non-zero source:   the field holds the conversion of the source field;
+  (iii) `f = .mapped … .check` and the source field is zero:        the field holds what `old` held.
+(Locations erased; the nil source pointer is `C10_composite_run` (iv) below.) -/
+
+open Gv.Typing Gv.Spec Gv.Sound in
+theorem C10_composite (p : Program) (hchk : PlanCheck.checkProgU p = true)
+    (m : Nat) (gm : GenMethod) (srcIsPtr : Bool) (plans : FieldPlans) (upd : Bool)
+    (hm : p.methods[m]? = some gm) (hb : gm.body = some (.update srcIsPtr (.structc plans upd)))
+    (s t : Ty) (htys : UpdTypes p gm srcIsPtr s t) (sfs tfs : Fields)
+    (hs : under p.conv.env s = .struct sfs) (ht : under p.conv.env t = .struct tfs)
+    (src : Val) (fs : List (S × Val)) (hsrc : src = .struct fs ∨ ∃ l, src = .ptr l (.struct fs))
+    (hwt : WT p.conv.env (.struct fs) s) (old : Val) (hold : WT p.conv.env old t)
+    (fuel : Nat) (fr : Frame) (n : Nat) (v' : Val) (n' : Nat)
+    (hev : evalConv p fuel fr (.structc plans upd) src old n = .ok (v', n')) :
+    ∃ ws, v' = .struct ws ∧
+      ∀ (i : Nat) (tf : FieldInfo) (tty : Ty), tfs.toList[i]? = some (tf, tty) →
+        ∃ f, plans.toList[i]? = some f ∧
+          FieldOutcome p.conv.env sfs.toList fs tf tty (oldFields (erase old)) (erase.eraseFields ws) f := by
+  obtain ⟨ws, hv', himg⟩ := update_struct_onto p (checkProgU_sound p hchk) m gm srcIsPtr plans upd hm hb s t htys sfs tfs hs ht
+    src fs hsrc hwt old (oldOK_of_WT hold) fuel fr n v' n' hev
+  exact ⟨ws, hv', fun i tf tty hi => himg.outcome i tf tty hi⟩
+
+open Gv.Typing Gv.Spec Gv.Sound in
+/-- the general form, for any plan node of a checked program (nested structs, pointers, slices, maps included): whatever
+the node returns for a well-typed source value `v` and a well-typed previous value `old` of the target location is the
+assignment image of `v` onto `old` -/
+theorem C10_composite_onto (p : Program) (hchk : PlanCheck.checkProgU p = true)
+    (fuel : Nat) (fr : Frame) (c : Conv) (s t : Ty) (v old : Val) (n : Nat) (v' : Val) (n' : Nat)
+    (hc : PlanCheck.checkTyU p c s t = true) (hwt : WT p.conv.env v s) (hold : WT p.conv.env old t)
+    (hev : evalConv p fuel fr c v old n = .ok (v', n')) :
+    ImgOnto p.conv.env s t v (erase old) (erase v') :=
+  evalConv_onto p (checkProgU_sound p hchk) fuel fr c s t v old n v' n' (checkTyU_sound p c s t hc) hwt (oldOK_of_WT hold) hev
+
+open Gv.Spec in
+/-- what the relation says at a basic target type: an assigned field holds exactly the payload of its source -/
+theorem C10_onto_basic {env : TEnv} {s t : Ty} {r : S} {k : Kind} {old w : Val} (ht : under env t = .basic k)
+    (h : ImgOnto env s t (.basic r) old w) : w = .basic r :=
+  ImgOnto.basic_inv_aux h r k rfl ht
+
+open Gv.Typing Gv.Spec Gv.Sound in
+/-- the same at the level of the method call (`runMethod`: source argument, then the target pointer), including
+ (iv) a nil source pointer leaves the target untouched -/
+theorem C10_composite_run (p : Program) (hchk : PlanCheck.checkProgU p = true)
+    (m : Nat) (gm : GenMethod) (srcIsPtr : Bool) (plans : FieldPlans) (upd : Bool)
+    (hm : p.methods[m]? = some gm) (hb : gm.body = some (.update srcIsPtr (.structc plans upd)))
+    (srcArg tgtArg : Arg) (ha : gm.args = [srcArg, tgtArg]) (hsu : srcArg.use = .source) (htu : tgtArg.use = .target)
+    (s t : Ty) (htys : UpdTypes p gm srcIsPtr s t) (sfs tfs : Fields)
+    (hs : under p.conv.env s = .struct sfs) (ht : under p.conv.env t = .struct tfs)
+    (src : Val) (l : Loc) (old : Val) (hold : WT p.conv.env old t) (fuel : Nat) (r : Val)
+    (hrun : runMethod p m [src, .ptr l old] fuel = .ok r) :
+    (srcIsPtr = true → src = .nil → r = .ptr l old) ∧
+    (∀ fs, (src = .struct fs ∨ ∃ l', src = .ptr l' (.struct fs)) → WT p.conv.env (.struct fs) s →
+      ∃ ws, r = .ptr l (.struct ws) ∧
+        ∀ (i : Nat) (tf : FieldInfo) (tty : Ty), tfs.toList[i]? = some (tf, tty) →
+          ∃ f, plans.toList[i]? = some f ∧
+            FieldOutcome p.conv.env sfs.toList fs tf tty (oldFields (erase old)) (erase.eraseFields ws) f) := by
+  unfold runMethod at hrun
+  simp [hm, hb, ha, hsu, htu, List.zip, List.find?] at hrun
+  refine ⟨?_, ?_⟩
+  · intro h1 h2
+    subst h1; subst h2
+    rw [if_pos ⟨rfl, rfl⟩] at hrun
+    cases hrun
+    rfl
+  · intro fs hsrc hwt
+    have key : ∃ nv n1, evalConv p fuel { self := m, ctx := [], idx := [], keys := [], parent := none }
+          (.structc plans upd) src old 0 = .ok (nv, n1) ∧ r = .ptr l nv := by
+      rcases hsrc with rfl | ⟨l', rfl⟩
+      all_goals
+        simp only [Bool.false_eq_true, and_false, if_false] at hrun
+        split at hrun
+        · rename_i nv n1 hc; cases hrun; exact ⟨nv, n1, hc, rfl⟩
+        · cases hrun
+        · cases hrun
+        · cases hrun
+    obtain ⟨nv, n1, hc, hr⟩ := key
+    obtain ⟨ws, hv', hall⟩ := C10_composite p hchk m gm srcIsPtr plans upd hm hb s t htys sfs tfs hs ht src fs hsrc hwt old hold
+      fuel _ 0 nv n1 hc
+    subst hv'
+    exact ⟨ws, hr, hall⟩
+
+/-! non-vacuity: a concrete update method passes the check, its hypotheses are met, and the call is computed:
+`A` is assigned, `B` is guarded and its source is the zero value (kept), `K` is ignored (kept) -/
+
+def uFields : Fields :=
+  .cons { name := "A".toList, exported := true, embedded := false, pkg := [] } (.basic .int)
+    (.cons { name := "B".toList, exported := true, embedded := false, pkg := [] } (.basic .string)
+      (.cons { name := "K".toList, exported := true, embedded := false, pkg := [] } (.basic .int) .nil))
+
+def uPlans : FieldPlans :=
+  .cons (.mapped "A".toList ["A".toList] [false] false false .ident .none)
+    (.cons (.mapped "B".toList ["B".toList] [false] false false .ident .check)
+      (.cons (.skip "K".toList) .nil))
+
+def uMethod : GenMethod :=
+  { name := "Update".toList, source := .struct uFields, target := .ptr (.struct uFields),
+    args := [{ name := "source".toList, use := .source, ty := .struct uFields },
+             { name := "target".toList, use := .target, ty := .ptr (.struct uFields) }],
+    contexts := [], returnError := false, updateTarget := true, explicit := true, dirty := false, originPath := [],
+    originName := [], cfg := { common := {} }, body := some (.update false (.structc uPlans false)) }
+
+def uProgram : Program :=
+  { conv := { env := [], common := {}, outputPkg := [], customs := [], extend := [], orc := {} }, methods := [uMethod] }
+
+def uSrc : Val := .struct [("A".toList, .basic "5".toList), ("B".toList, .basic []), ("K".toList, .basic "1".toList)]
+def uOld : Val := .struct [("A".toList, .basic "9".toList), ("B".toList, .basic "keep".toList), ("K".toList, .basic "42".toList)]
+def uNew : Val := .struct [("A".toList, .basic "5".toList), ("B".toList, .basic "keep".toList), ("K".toList, .basic "42".toList)]
+
+example : PlanCheck.checkProgU uProgram = true := by decide
+
+open Gv.Sound in
+example : UpdTypes uProgram uMethod false (.struct uFields) (.struct uFields) := ⟨rfl, rfl⟩
+
+/-- the call succeeds (the hypothesis `… = .ok _` is met): `A` replaced, `B` (zero source, guarded) and `K` (ignored) kept -/
+example : runMethod uProgram 0 [uSrc, .ptr (.src 7) uOld] 10 = .ok (.ptr (.src 7) uNew) := by
+  unfold runMethod
+  simp [uProgram, uMethod, uPlans, uSrc, uOld, uNew, evalConv, evalFields, walk, fieldOf, setField, normStruct,
+    Val.isAbsent, isZeroVal, pure, StateT.pure, List.lookup, List.zip, List.find?]
+
+open Gv.Typing in
+example : WT uProgram.conv.env uSrc (.struct uFields) :=
+  WT_struct_of_basics (tfs := uFields) rfl
+    (by intro q hq; simp at hq; rcases hq with rfl | rfl | rfl <;> exact ⟨_, rfl⟩)
+    (by intro q hq; simp [uFields, Fields.toList] at hq; rcases hq with rfl | rfl | rfl <;> exact ⟨_, rfl⟩)
+
+open Gv.Typing in
+example : WT uProgram.conv.env uOld (.struct uFields) :=
+  WT_struct_of_basics (tfs := uFields) rfl
+    (by intro q hq; simp at hq; rcases hq with rfl | rfl | rfl <;> exact ⟨_, rfl⟩)
+    (by intro q hq; simp [uFields, Fields.toList] at hq; rcases hq with rfl | rfl | rfl <;> exact ⟨_, rfl⟩)
+
+/-! the same method with a POINTER source (`srcIsPtr = true`): a non-nil pointer is read through, a nil pointer leaves the
+target untouched -/
+
+def uMethodP : GenMethod :=
+  { uMethod with source := .ptr (.struct uFields),
+                 args := [{ name := "source".toList, use := .source, ty := .ptr (.struct uFields) },
+                          { name := "target".toList, use := .target, ty := .ptr (.struct uFields) }],
+                 body := some (.update true (.structc uPlans false)) }
+
+def uProgramP : Program := { uProgram with methods := [uMethodP] }
+
+example : PlanCheck.checkProgU uProgramP = true := by decide
+
+open Gv.Sound in
+example : UpdTypes uProgramP uMethodP true (.struct uFields) (.struct uFields) := ⟨rfl, rfl⟩
+
+example : runMethod uProgramP 0 [.ptr (.src 3) uSrc, .ptr (.src 7) uOld] 10 = .ok (.ptr (.src 7) uNew) := by
+  unfold runMethod
+  simp [uProgramP, uProgram, uMethodP, uMethod, uPlans, uSrc, uOld, uNew, evalConv, evalFields, walk, fieldOf, setField,
+    normStruct, Val.isAbsent, isZeroVal, pure, StateT.pure, List.lookup, List.zip, List.find?]
+
+example : runMethod uProgramP 0 [.nil, .ptr (.src 7) uOld] 10 = .ok (.ptr (.src 7) uOld) := by
+  unfold runMethod
+  simp [uProgramP, uProgram, uMethodP, uMethod, List.zip, List.find?]
 
 end Gv.Props.C10
